@@ -222,18 +222,6 @@ def classify_equiv(T, v, chunk):
     return None
 
 
-def enc_model_imprecise(T, v):
-    """Model/Enc.v val_py_eq compares BIT STRING defaults as integers only (BitString.__eq__
-    also compares the lengths): the value-object encoder model is not consulted here"""
-    for fs, vs in records(T, v):
-        for (p, ft), fv in zip(fs, vs):
-            if isinstance(p, tuple) and base_desc(ft)[0] == 'bits' and fv is not None:
-                a, d = tuple(fv[1]), tuple(p[1][1])
-                if a != d and int('0' + ''.join(map(str, a)), 2) == int('0' + ''.join(map(str, d)), 2):
-                    return True
-    return False
-
-
 # ---------------------------------------------------------------------------------------------
 # abstract content with REAL as a float
 
@@ -413,7 +401,7 @@ def run(ctx):
                 'for BER definite / indefinite / chunk in {1,2,3,7}, CER, DER, bare-value encoder against encode_py.  '
                 'non-trivial = constructed or tagged type; distinct by (type, value)')
     search_only = getattr(ctx, 'search_only', False)
-    cases = codec.gen_cases(ctx, ctx.n(45, 700), depth=3, reals='all')
+    cases = codec.gen_cases(ctx, ctx.n(120, 2500), depth=3, reals='all')
     g = gen.Gen(ctx.rng, depth=3, reals='all')
     max_masks = 64
     exprs, meta = [], []
@@ -451,9 +439,6 @@ def run(ctx):
                 subs.append(('native encoder', 'py_code (to_native T v) (Err %s)' % e[1]))
             # (b)
             if not has_any and e[0] == 'ok':
-                imprecise = enc_model_imprecise(T, v)
-                if imprecise:
-                    ctx.stats['model_declines:Enc.val_py_eq_bits_length'] += 1
                 for cd, defm, chunk in modes(ctx.rng):
                     b, a, fail = run_equiv(T, v, cd, defm, chunk)
                     if b is None:
@@ -464,9 +449,8 @@ def run(ctx):
                         ctx.prop_fail('python-value encoding: ' + fail, dict(m, part='equiv', codec=cd, defMode=defm, maxChunkSize=chunk),
                                       finding=fid)
                         ctx.stats['prop_fail:' + (fid or 'unexplained')] += 1
-                    if not imprecise:
-                        subs.append(('%s bare-value encoder defMode=%s maxChunkSize=%d' % (cd, defm, chunk),
-                                     'nbytes_code (encode_py %s %s %d T p) %s' % (cd, cbool(defm), chunk, I.coq_res_bytes(b))))
+                    subs.append(('%s bare-value encoder defMode=%s maxChunkSize=%d' % (cd, defm, chunk),
+                                 'nbytes_code (encode_py %s %s %d T p) %s' % (cd, cbool(defm), chunk, I.coq_res_bytes(b))))
             elif has_any:
                 ctx.stats['equiv_skipped:ANY'] += 1
             if not search_only:
